@@ -204,6 +204,149 @@ def opToDt (j : Json) : Except String Json := do
     let d := toDatetime s us o
     pure <| Json.mkObj [("u", jInt d.utcMicros), ("off", jInt d.offMin), ("minutes", jInt o)]
 
+/-! #### C03 / C04 / C15 header-list manifests -/
+
+def getDate (j : Json) (k : String) : Except String (Option DateV) :=
+  match j.getObjVal? k with
+  | .ok Json.null => pure none
+  | .error _ => pure none
+  | .ok d => do
+    let s ← getI d "s"
+    let us ← getN d "us"
+    let off ← getB d "off"
+    pure (some ⟨s, us, off⟩)
+
+def getHeaders (j : Json) (k : String) : Except String (List Header) := do
+  let a ← getArr j k
+  a.toList.mapM (fun p => do
+    let kv ← p.getArr?
+    if kv.size != 2 then throw "bad header pair"
+    let ks ← kv[0]!.getStr?
+    let vs ← kv[1]!.getStr?
+    let kb ← unhexStr ks
+    let vb ← unhexStr vs
+    pure (kb, vb))
+
+def getHeadersOpt (j : Json) (k : String) : Except String (Option (List Header)) :=
+  match j.getObjVal? k with
+  | .ok Json.null => pure none
+  | .error _ => pure none
+  | .ok _ => do let h ← getHeaders j k; pure (some h)
+
+def jHeaders (hs : List Header) : Json := jPairs hs
+
+def opRevManifest (j : Json) : Except String Json := do
+  let dir ← getB j "directory"
+  let parents ← (← getArr j "parents").toList.mapM (fun x => do let s ← x.getStr?; unhexStr s)
+  let author ← getBOpt j "author"
+  let date ← getDate j "date"
+  let committer ← getBOpt j "committer"
+  let cdate ← getDate j "committer_date"
+  let extra ← getHeaders j "extra"
+  let metaH ← getHeadersOpt j "meta"
+  let msg ← getBOpt j "message"
+  let r : RevAttrs := ⟨dir, parents, author, date, committer, cdate, extra, metaH, msg⟩
+  pure <| Json.mkObj [("manifest", jB (revisionManifest r))]
+
+def opCommitParse (j : Json) : Except String Json := do
+  let bs ← getB j "bytes"
+  match parseCommit bs with
+  | none => pure <| Json.mkObj [("parsed", Json.null)]
+  | some p => pure <| Json.mkObj [("parsed", Json.mkObj [
+      ("tree", jB p.tree), ("parents", Json.arr (p.parents.map jB).toArray),
+      ("author", jBOpt p.author), ("committer", jBOpt p.committer),
+      ("extra", jHeaders p.extra), ("message", jBOpt p.message)])]
+
+def opRelManifest (j : Json) : Except String Json := do
+  let target ← getB j "target"
+  let tt ← getB j "ttype"
+  let name ← getB j "name"
+  let author ← getBOpt j "author"
+  let date ← getDate j "date"
+  let msg ← getBOpt j "message"
+  match targetTypeToGit tt with
+  | none => throw "unknown target type"
+  | some g =>
+    let r : RelAttrs := ⟨target, g, name, author, date, msg⟩
+    pure <| Json.mkObj [("manifest", jB (releaseManifest r))]
+
+def opTagParse (j : Json) : Except String Json := do
+  let bs ← getB j "bytes"
+  match parseTag bs with
+  | none => pure <| Json.mkObj [("parsed", Json.null)]
+  | some p => pure <| Json.mkObj [("parsed", Json.mkObj [
+      ("object", jB p.object), ("type", jB p.type), ("tag", jB p.tag),
+      ("tagger", jBOpt p.tagger), ("message", jBOpt p.message)])]
+
+def opExtidManifest (j : Json) : Except String Json := do
+  let e : ExtidAttrs := ⟨← getB j "extid_type", ← getI j "version", ← getB j "extid",
+    ← getB j "target", ← getBOpt j "payload_type", ← getBOpt j "payload"⟩
+  pure <| Json.mkObj [("manifest", jB (extidManifest e))]
+
+def opExtidParse (j : Json) : Except String Json := do
+  let bs ← getB j "bytes"
+  match parseExtid bs with
+  | none => pure <| Json.mkObj [("parsed", Json.null)]
+  | some p => pure <| Json.mkObj [("parsed", Json.mkObj [
+      ("extid_type", jB p.extidType), ("version", jBOpt p.version), ("extid", jB p.extid),
+      ("target", jB p.target), ("payload_type", jBOpt p.payloadType), ("payload", jBOpt p.payload)])]
+
+def getNOpt (j : Json) (k : String) : Except String (Option Nat) :=
+  match j.getObjVal? k with
+  | .ok Json.null => pure none
+  | .error _ => pure none
+  | .ok v => do let n ← v.getNat?; pure (some n)
+
+def opRemManifest (j : Json) : Except String Json := do
+  let m : RemAttrs := {
+    target := ← getB j "target", discovery := ⟨← getI j "u", ← getI j "off"⟩,
+    authorityType := ← getB j "atype", authorityUrl := ← getB j "aurl",
+    fetcherName := ← getB j "fname", fetcherVersion := ← getB j "fversion",
+    format := ← getB j "format", metadata := ← getB j "metadata",
+    origin := ← getBOpt j "origin", visit := ← getNOpt j "visit",
+    snapshot := ← getBOpt j "snapshot", release := ← getBOpt j "release",
+    revision := ← getBOpt j "revision", path := ← getBOpt j "path",
+    directory := ← getBOpt j "directory" }
+  pure <| Json.mkObj [("manifest", jB (remManifest m)), ("second", jInt m.second)]
+
+def opRemParse (j : Json) : Except String Json := do
+  let bs ← getB j "bytes"
+  match parseRem bs with
+  | none => pure <| Json.mkObj [("parsed", Json.null)]
+  | some p => pure <| Json.mkObj [("parsed", Json.mkObj [
+      ("target", jB p.target), ("discovery", jB p.discovery), ("atype", jB p.authorityType),
+      ("aurl", jB p.authorityUrl), ("fname", jB p.fetcherName), ("fversion", jB p.fetcherVersion),
+      ("format", jB p.format), ("origin", jBOpt p.origin), ("visit", jBOpt p.visit),
+      ("snapshot", jBOpt p.snapshot), ("release", jBOpt p.release), ("revision", jBOpt p.revision),
+      ("path", jBOpt p.path), ("directory", jBOpt p.directory), ("metadata", jB p.metadata)])]
+
+/-! #### C17 discovery -/
+
+def parseDObj (kind : Discovery.Kind) (j : Json) : Except String Discovery.Obj := do
+  let id ← getN j "id"
+  let es ← match j.getObjVal? "entries" with
+    | .ok (Json.arr a) => a.toList.mapM (fun x => x.getNat?)
+    | _ => pure []
+  pure ⟨id, kind, es⟩
+
+def jNats (l : List Nat) : Json := Json.arr (l.map (fun n => Json.num (JsonNumber.fromNat n))).toArray
+
+def opDiscovery (j : Json) : Except String Json := do
+  let cs ← (← getArr j "contents").toList.mapM (parseDObj .content)
+  let sk ← (← getArr j "skipped").toList.mapM (parseDObj .skipped)
+  let ds ← (← getArr j "dirs").toList.mapM (parseDObj .directory)
+  let known ← (← getArr j "known").toList.mapM (fun x => x.getNat?)
+  let n ← getN j "sample_size"
+  let samples ← (← getArr j "samples").toList.mapM (fun a => do
+    let l ← a.getArr?
+    l.toList.mapM (fun x => x.getNat?))
+  let pops ← (← getArr j "pops").toList.mapM (fun x => x.getNat?)
+  let r := Discovery.runScriptIds n cs sk ds (fun x => known.contains x) samples pops
+  pure <| Json.mkObj [("contents", jNats r.contentIds), ("skipped", jNats r.skippedIds),
+    ("dirs", jNats r.directoryIds),
+    ("log", Json.arr (r.log.map (fun e => Json.arr #[Json.num (JsonNumber.fromNat e.1), Json.bool e.2])).toArray),
+    ("queries", Json.num (JsonNumber.fromNat r.queries)), ("ok", Json.bool r.ok)]
+
 def dispatch (op : String) (j : Json) : Except String Json :=
   match op with
   | "ping" => pure (Json.mkObj [("pong", Json.bool true)])
@@ -218,6 +361,15 @@ def dispatch (op : String) (j : Json) : Except String Json :=
   | "mk_ts" => opMkTs j
   | "from_dt" => opFromDt j
   | "to_dt" => opToDt j
+  | "rev_manifest" => opRevManifest j
+  | "commit_parse" => opCommitParse j
+  | "rel_manifest" => opRelManifest j
+  | "tag_parse" => opTagParse j
+  | "extid_manifest" => opExtidManifest j
+  | "extid_parse" => opExtidParse j
+  | "rem_manifest" => opRemManifest j
+  | "rem_parse" => opRemParse j
+  | "discovery" => opDiscovery j
   | _ => throw s!"unknown op {op}"
 
 def handleLine (line : String) : String :=
